@@ -4,6 +4,7 @@
 -/
 import Ladybug.DrvCore
 import Ladybug.Model.Sun
+import Ladybug.Model.SunObj
 
 open Drv
 
@@ -51,8 +52,84 @@ def splitHour (f : Float) : Option (Int × Rat) := do
   let p ← Py.ratOfFloatBits ((f - Float.ofInt h) * 60.0).toBits
   pure (h, p)
 
+/-! ### Histories on one object (`hist vlat vlon vtz vnorth lat lon tz north ; op ; op …`; the first
+    four tokens: does that setter check before it stores — read off the source by the harness) -/
+
+def showOErr : Sun.OErr → String
+  | .assert => "err:assert"
+  | .value => "err:value"
+  | .type => "err:type"
+
+/-- A setter argument: float bits, `none`, `bad:value`, `bad:type`. -/
+def arg? (s : String) : Option (Sun.Arg Float) :=
+  if s = "none" then some .none
+  else if s = "bad:value" then some (.bad .value)
+  else if s = "bad:type" then some (.bad .type)
+  else (fun f => Sun.Arg.num f) <$> floatBits? s
+
+def op? (toks : List String) : Option (Sun.Op Float) :=
+  match toks with
+  | ["sl", a] => Sun.Op.setLat <$> arg? a
+  | ["so", a] => Sun.Op.setLon <$> arg? a
+  | ["st", a] => Sun.Op.setTz <$> arg? a
+  | ["sn", a] => Sun.Op.setNorth <$> arg? a
+  | ["sy", b] => Sun.Op.setLeap <$> bool? b
+  | ["rm", m, s] => do
+      let m ← m.toInt?
+      let s ← bool? s
+      pure (.read (.moy m s))
+  | ["rh", h, s] => do
+      let f ← floatBits? h
+      let x ← Py.ratOfFloatBits (f * 60.0).toBits
+      let s ← bool? s
+      pure (.read (.hoy x s))
+  | ["rd", mo, da, h, s] => do
+      let mo ← mo.toNat?
+      let da ← da.toNat?
+      let f ← floatBits? h
+      let hp ← splitHour f
+      let s ← bool? s
+      pure (.read (.mdh mo da hp.1 hp.2 s))
+  | ["rt", mo, da, h, mi, dl, s] => do
+      let mo ← mo.toNat?
+      let da ← da.toNat?
+      let h ← h.toNat?
+      let mi ← mi.toNat?
+      let dl ← bool? dl
+      let s ← bool? s
+      match Cal.DT.make mo da h mi dl with
+      | .ok d => pure (.read (.dt d s))
+      | .error _ => none
+  | ["g"] => some .get
+  | ["x"] => some .other
+  | _ => none
+
+/-- Split a token list at the `;` tokens. -/
+def splitSemi (toks : List String) : List (List String) :=
+  let r := toks.foldr (fun t (acc : List String × List (List String)) =>
+    if t = ";" then ([], acc.1 :: acc.2) else (t :: acc.1, acc.2)) ([], [])
+  r.1 :: r.2
+
+def showOut : Sun.Out Float → String
+  | .done => "ok"
+  | .refused e => showOErr e
+  | .sun r => showE r
+  | .cfg la lo tz no lp => s!"ok {fb la} {fb lo} {fb tz} {fb no} {showBool lp}"
+
+def handleHist (toks : List String) : String :=
+  match splitSemi toks with
+  | [vla, vlo, vtz, vno, lat, lon, tz, north] :: ops =>
+    match bool? vla, bool? vlo, bool? vtz, bool? vno, cfg? lat lon tz north "0", ops.mapM op? with
+    | some a, some b, some c', some d, some c, some ops =>
+      if Sun.cfgOk c then
+        " | ".intercalate ((Sun.run ⟨a, b, c', d⟩ ofN (Sun.Obj.ofCfg c) ops).2.map showOut)
+      else "err:assert"
+    | _, _, _, _, _, _ => "bad-op"
+  | _ => "bad-op"
+
 def handle (toks : List String) : String :=
   match toks with
+  | "hist" :: rest => handleHist rest
   | ["days", y, m, d] =>
     match y.toNat?, m.toNat?, d.toNat? with
     | some y, some m, some d => s!"ok {Sun.daysFrom010119 y m d}"
